@@ -15,7 +15,9 @@ func init() {
 	reg("H_C01_receivers", H_C01_receivers)
 	reg("H_C01_payloads", H_C01_payloads)
 	reg("H_C01_faults", H_C01_faults)
+	reg("H_C01_sequence", H_C01_sequence)
 	reg("H_C02_faults", H_C02_faults)
+	reg("H_C02_sequence", H_C02_sequence)
 	reg("H_C02_conservation", H_C02_conservation)
 	reg("H_C03_faults", H_C03_faults)
 	reg("H_C07_packets", H_C07_packets)
@@ -30,7 +32,9 @@ func init() {
 func H_C01_receivers() { H_C01_recv() }
 func H_C01_payloads()  { H_C01_recv() }
 func H_C01_faults()    { H_C01_recv() }        // the same with a failure bit at every environment call
+func H_C01_sequence()  { H_C01_recv() }        // the same after an earlier complete transfer on the same keeper and controllers
 func H_C02_faults()    { H_C02_conservation() }
+func H_C02_sequence()  { H_C02_conservation() } // the same after an earlier complete transfer on the same keeper and controllers
 func H_C07_packets()   { H_C07_passthrough() }
 func H_C07_payloads()  { H_C07_passthrough() }
 
